@@ -1,5 +1,7 @@
 package history
 
+import "errors"
+
 var defaultSourceName = "default history"
 
 // Source is an interface to allow you to write your own history logging tools.
@@ -45,6 +47,10 @@ func (h *memory) Write(s string) (int, error) {
 func (h *memory) GetLine(i int) (string, error) {
 	if len(h.items) == 0 {
 		return "", nil
+	}
+
+	if i < 0 || i >= len(h.items) {
+		return "", errors.New("history line index out of range")
 	}
 
 	return h.items[i], nil
